@@ -16,6 +16,7 @@ import math
 
 import numpy as np
 
+from . import argforms_a as af
 from . import c05, qc
 from .common import bits, unbits
 from .qc import torch
@@ -53,7 +54,11 @@ RULE = ("case = (n, h, a, scale, amplitude-net params, phase-net params, alterna
         "reinit+assign) after each of which everything is evaluated again with the same argument tensors; every explicit `expand` argument "
         "of gamma / pi / rho (batch and 1-D forms) and every `overwrite` argument of the sampling calls is handed over as one of {bool "
         "singleton, int 1/0, numpy.bool_, result of a numpy comparison, 0-dim numpy bool array, 0-dim torch.bool tensor}, by keyword or "
-        "positionally, drawn from a per-case seeded stream (`fseed`); the state is constructed with gpu=<falsy object of one of these forms>")
+        "positionally, drawn from a per-case seeded stream (`fseed`); the state is constructed with gpu=<falsy object of one of these forms>; argument-form "
+        "sweep (round 5): every INTEGER option - num_visible / num_hidden / num_aux of the DensityMatrix and PurificationRBM constructors, `eta` "
+        "of gamma (+1 / -1), `size` of generate_hilbert_space, `k` / `num_samples` of the sampling calls - is handed over as one of {Python int, "
+        "np.int64, np.int32, np.intp, np.uint8, 0-d integer numpy array, 0-d integer torch tensor} and the normalisation `Z` of probability as the "
+        "0-d tensor normalization() returned / float / numpy float, drawn from the case's stream `aseed`, keyword or positional")
 EXP_LIMIT = 600.0
 
 
@@ -148,11 +153,17 @@ class _Calls:
     on BATCH arguments, (function, descriptor, vp is None, layout of the result) for the comparison with Density.gammaForm / piForm / rhoForm,
     `vals` the flagged rho calls on square batches for the comparison with Density.rhoFlagged (theorem C02_expand_flag)."""
 
-    def __init__(self, fl):
+    def __init__(self, fl, A=None):
+        """`A`: the case's argument-form stream (argforms.Args): the integer `eta` (+1 / -1) of gamma is handed over as the object it draws"""
         self.fl, self.rec, self.vals = fl, [], []
+        self.A = A if A is not None else af.Args(None)
+
+    def eta(self, eta):
+        return self.A.i(eta)
 
     def gamma(self, r, v, vp, eta, b):
         obj, d = self.fl(b)
+        eta = self.A.i(eta)
         out = r.gamma(v, vp, eta, obj) if d["pos"] else r.gamma(v, vp, eta=eta, expand=obj)
         if v.dim() == 2 and vp.dim() == 2:
             self.rec.append(["gamma", d, False, "matrix" if out.dim() == 2 else "vector"])
@@ -178,12 +189,15 @@ class _Calls:
 class _In:
     """the argument tensors of one case, built once and handed to the implementation again in every phase of a history"""
 
-    def __init__(self, st, n, a, sub):
+    def __init__(self, st, n, a, sub, A=None):
         rows, auxrows = qc.all_states(n), qc.all_states(a)
         N, C = len(rows), len(auxrows)
         self.space_t = torch.tensor(rows, dtype=torch.double)
         self.aux_t = torch.tensor(auxrows, dtype=torch.double)
-        self.gen_space = st.generate_hilbert_space()
+        if A is None or A.aseed is None:
+            self.gen_space = st.generate_hilbert_space()
+        else:   # `size` = n as the object the case's stream draws, positional or by keyword
+            self.gen_space = st.generate_hilbert_space(A.i(n)) if A.coin(0.5) else st.generate_hilbert_space(size=A.i(n))
         self.gen_space_d = self.gen_space.to(dtype=torch.double)
         self.vrep = self.space_t.repeat_interleave(N, 0)   # pair (i,j) at position i*N+j : v = row i
         self.vtile = self.space_t.repeat(N, 1)             #                               vp = row j
@@ -205,10 +219,17 @@ def _one_case(ctx, case):
     am, ph = case["am"], case["ph"]
     tag = case.get("tag", "gen")
     ctx.current_case = case
-    st = qc.make_density(n, h, a, am, ph, gpu=qc.flag_value(qc.flag_desc(case.get("gpuf"), False)))
-    I = _In(st, n, a, case["sub"])
+    A = af.Args(case.get("aseed"))            # cases stored before round 5 carry no "aseed": Python ints by keyword, as before
+    st = af.make_density(A, n, h, a, am, ph, gpu=qc.flag_value(qc.flag_desc(case.get("gpuf"), False)))
+    if not af.check_sizes(ctx, st, (n, h, a), case, A, "ctor-sizes", "C02_rho_eq_partial_trace (stated for the architecture n x h x a the caller asked for)"):
+        return
+    I = _In(st, n, a, case["sub"], A)
+    if A.aseed is not None:
+        ctx.oracle("generate_hilbert_space(size = n given as an integer object) == all 2^n basis states in counting order",
+                   bool(I.gen_space.dtype == torch.double and I.gen_space.tolist() == [[float(x) for x in r] for r in qc.all_states(n)]), case,
+                   detail={"given_as": A.used()["ints"][-1:]}, sig="hilbert-space-size", theorem="C02_trace (the trace runs over the whole basis)")
     writes = case.get("writes") or []
-    K = _Calls(qc.Flags(case.get("fseed")))   # cases stored before round 4 carry no "fseed": Python singletons by keyword, as before
+    K = _Calls(qc.Flags(case.get("fseed")), A)   # cases stored before round 4 carry no "fseed": Python singletons by keyword, as before
 
     nontriv = (scale > 0 and all(x != 0 for x in am["b"]) and all(x != 0 for x in am["c"]) and all(x != 0 for x in am["d"])
                and any(x != 0 for r in ph["U"] for x in r))
@@ -239,6 +260,7 @@ def _one_case(ctx, case):
         sub.oracle("argument tensors unmodified by the evaluation", not bad_in, case, detail={"modified": bad_in}, sig="args-untouched")
     for d in K.fl.used:
         ctx.count(f"expand={d['value']} given as {d['form']}:{'positional' if d['pos'] else 'keyword'}")
+    A.count_into(ctx)
     alt = case.get("alt")
     if alt is not None:
         sets = [phases[-1][1:], (alt["am"], alt["ph"])]
@@ -382,7 +404,7 @@ def _eval_state(ctx, st, case, am, ph, I, K=None):
             gam[f"S_{k}_{nm}"] = _shape(_np(K.gamma(r, sub_t, space_t, eta, True)), (len(sub), N), "gamma(sub, space, expand=<true>)")
             gam[f"P_{k}_{nm}"] = _shape(_np(K.gamma(r, vrep, vtile, eta, False)), (N * N,), "gamma(v, vp, expand=<false>)")
             # 1-D arguments: `expand` is irrelevant (default, or any object of either truth value)
-            gam[f"V_{k}_{nm}"] = np.array([float(r.gamma(I.row[i], I.row[j], eta=eta) if q % 3 == 0 else K.gamma(r, I.row[i], I.row[j], eta, q % 3 == 1))
+            gam[f"V_{k}_{nm}"] = np.array([float(r.gamma(I.row[i], I.row[j], eta=K.eta(eta)) if q % 3 == 0 else K.gamma(r, I.row[i], I.row[j], eta, q % 3 == 1))
                                            for q, (i, j) in enumerate(vec_pairs)])
     piM = _shape(_np(K.pi(st, space_t, space_t, True)), (2, N, N), "pi(space, space, expand=<true>)")
     piS = _shape(_np(K.pi(st, sub_t, space_t, True)), (2, len(sub), N), "pi(sub, space, expand=<true>)")
@@ -437,11 +459,24 @@ def _eval_state(ctx, st, case, am, ph, I, K=None):
                 ctx.point(f"gamma[{k},{nm}] 1-D", "aux", gam[f"V_{k}_{nm}"], mV(f"gamma_{k}_{nm}"), case, scale=sg, sig=f"{k}/gamma-{nm}/vec")
         with np.errstate(all="ignore"):
             spi = float(np.nanmax(np.abs(np.where(np.isfinite(piM), piM, 0.0)))) + 1
+        # entries where some auxiliary unit has x_k = (U(v+v')/2 + d)_k > 700: the formula as written exponentiates x_k, e^x overflows and
+        # atan2(inf * sin, 1 + inf * cos) returns a multiple of pi/4 (or nan) instead of the argument of 1 + e^{x+iy}.  Model and code agree on
+        # that artefact only as long as the code keeps exactly this formula; the property (and the quantifier: magnitudes up to ~30) says
+        # nothing about it and an overflow-free evaluation is as good.  Those entries (overflow probes at scale 100 / 300 only) are left out
+        # of the auxiliary pi points; rho there is beyond the double range anyway and is compared in the log domain through -E only.
+        Vn = np.asarray(rows, dtype=np.float64)
+        al_ = Vn @ Ul.T + dl[None, :]
+        xov = ((al_[:, None, :] + al_[None, :, :]) / 2.0).max(axis=-1) > 700.0                       # (N, N)
+        if xov.any():
+            ctx.count("pi points: entries with e^x overflow left out", int(xov.sum()))
+        keep = {"M": ~xov, "S": ~xov[sub, :], "P": ~xov.ravel(), "V": np.array([not xov[i, j] for (i, j) in vec_pairs], dtype=bool)}
+        msk = lambda arr, key: np.where(keep[key], np.asarray(arr, dtype=np.float64).reshape(keep[key].shape), 0.0)  # noqa: E731
         for part, idx in (("re", 0), ("im", 1)):
-            ctx.point(f"pi_{part} expand=True", "aux", piM[idx], mM(f"pi_{part}"), case, scale=spi, sig=f"pi-{part}/matrix")
-            ctx.point(f"pi_{part} expand=True rect", "aux", piS[idx], mS(f"pi_{part}"), case, scale=spi, sig=f"pi-{part}/rect")
-            ctx.point(f"pi_{part} expand=False", "aux", piP[idx], mP(f"pi_{part}"), case, scale=spi, sig=f"pi-{part}/paired")
-            ctx.point(f"pi_{part} 1-D", "aux", piV[:, idx] if vec_pairs else [], mV(f"pi_{part}"), case, scale=spi, sig=f"pi-{part}/vec")
+            ctx.point(f"pi_{part} expand=True", "aux", msk(piM[idx], "M"), msk(mM(f"pi_{part}"), "M"), case, scale=spi, sig=f"pi-{part}/matrix")
+            ctx.point(f"pi_{part} expand=True rect", "aux", msk(piS[idx], "S"), msk(mS(f"pi_{part}"), "S"), case, scale=spi, sig=f"pi-{part}/rect")
+            ctx.point(f"pi_{part} expand=False", "aux", msk(piP[idx], "P"), msk(mP(f"pi_{part}"), "P"), case, scale=spi, sig=f"pi-{part}/paired")
+            ctx.point(f"pi_{part} 1-D", "aux", msk(piV[:, idx], "V") if vec_pairs else [], msk(mV(f"pi_{part}"), "V") if vec_pairs else [], case, scale=spi,
+                      sig=f"pi-{part}/vec")
 
     if ctx.driver is not None and K.rec:
         # layout each function chooses for the object it was handed (batch arguments), against gammaForm / piForm / rhoForm
@@ -497,8 +532,15 @@ def _eval_state(ctx, st, case, am, ph, I, K=None):
     RD = _shape(_np(K.rho(st, space_t, None, False, "rho(space, expand=<false>)")), (2, N), "rho(space, expand=<false>)")
     RD1 = _np(K.rho(st, I.row[N - 1], None, False)).ravel()   # 1-D
     p1 = _np(st.probability(space_t, 1.0))
-    Z = float(st.normalization(gen_space))
-    pZ = _np(st.probability(space_t, Z))
+    Zt = st.normalization(gen_space)
+    Z = float(Zt)
+    if K.A.aseed is None:
+        pZ = _np(st.probability(space_t, Z))
+    else:   # the normalisation as the object callers have in hand: the 0-d tensor normalization() returned, a Python float, a numpy float
+        zform = K.A.choice(["tensor", "float", "np.float64"])
+        Zo = {"tensor": Zt, "float": Z, "np.float64": np.float64(Z)}[zform]
+        ctx.count(f"argform/Z given as {zform}")
+        pZ = _np(st.probability(space_t, Z=Zo) if K.A.coin(0.5) else st.probability(space_t, Zo))
     sc = float(np.max(p1))
 
     if model is not None:
@@ -756,7 +798,7 @@ def make_case(rng, n, h, a, scale, d_zero, n_vec, tag="gen"):
     if len(sub) == N:
         sub = sub[:-1] if N > 1 else sub + [0]
     return {"n": n, "h": h, "a": a, "scale": scale, "am": am, "ph": ph, "d_alt": d_alt, "vec_pairs": pairs, "sub": sub, "tag": tag,
-            "fseed": rng.randrange(2 ** 31), "gpuf": qc.flag_form(rng, plain=0.4)}
+            "fseed": rng.randrange(2 ** 31), "gpuf": qc.flag_form(rng, plain=0.4), "aseed": af.draw_aseed(rng)}
 
 
 def sampling_specs(rng, n):
@@ -771,6 +813,7 @@ def sampling_specs(rng, n):
         c.update(kw)
         c["B"] = kw.get("B", len(c["start"]) if c["start"] is not None else 1)
         c["owf"], c["owf2"] = qc.flag_form(rng), qc.flag_form(rng)   # the objects handed as `overwrite` (c05.run_call)
+        c["aseed"] = af.draw_aseed(rng)                               # the objects handed as `k` / `num_samples` (c05.run_call)
         return c
 
     out = [spec(k=k, start=batch, overwrite=bool((k + rng.randrange(2)) % 2), api=rng.choice(["sample", "gibbs_steps"])) for k in range(4)]
